@@ -1126,6 +1126,10 @@ func genGoMiniAll() []*leanFile {
 		[]string{cl + "commitlog.go"},
 		map[string][]string{cl + "commitlog.go": {"commitLog.Truncate"}},
 		clConsts)})
+	out = append(out, &leanFile{name: "GoRevScan", raw: genGoMini("GoRevScan",
+		[]string{cl + "index.go"},
+		map[string][]string{cl + "index.go": {"newReverseIndexScanner", "newReverseIndexScannerFromEnd", "reverseIndexScanner.Scan"}},
+		clConsts)})
 	out = append(out, &leanFile{name: "GoHWPos", raw: genGoMini("GoHWPos",
 		[]string{cl + "reader.go"},
 		map[string][]string{cl + "reader.go": {"getHWPos"}},
